@@ -213,7 +213,7 @@ def record(rep, case, src, p):
 def run(ctx, rep):
     rng = ctx.rng()
     cases = []
-    for _ in range(ctx.n(260, 12000)):
+    for _ in range(ctx.n(260, 3000)):
         T = gen_type(rng)
         cases.append({"T": list(T), "arms": [list(a) for a in gen_arms(rng, T)]})
     for case, src, p in common.pmap(lambda c: run_one(ctx, c), cases):
